@@ -122,7 +122,15 @@ def run_one(scene, run):
     return out
 
 
+def compile_job(job, first_tab):
+    L.SIM = None
+    L.TAB = first_tab
+    return scenic.scenarioFromString(job["src"], mode2D=True)
+
+
 def main():
+    """Every job is a HISTORY: all its runs use the same compiled Scenario object, in order; a run samples a fresh
+    scene (`scene: new`, always when the top-level scenario has requirements) or re-simulates the previous one."""
     payload = json.load(sys.stdin)
     results = []
     for job in payload["jobs"]:
@@ -130,9 +138,8 @@ def main():
         settle()
         regen = job.get("regen", False)      # requirements on the top-level scenario: the scene is sampled per run
         try:
-            L.SIM = None
-            L.TAB = job["runs"][0]["tab"] if (regen and job["runs"]) else []
-            scenario = scenic.scenarioFromString(job["src"], mode2D=True)
+            scenario = compile_job(job, job["runs"][0]["tab"] if (regen and job["runs"]) else [])
+            scene = None
             if not regen:
                 scene, _ = scenario.generate(maxIterations=5)
         except Exception as e:
@@ -141,15 +148,31 @@ def main():
             continue
         res["runs"] = []
         for run in job["runs"]:
-            if regen:
+            def sample():
                 L.SIM = None
                 L.TAB = run["tab"]
+                return scenario.generate(maxIterations=1 if regen else 5)[0]
+            try:
+                if regen or run.get("scene") == "new" or scene is None:
+                    scene = sample()
+            except RejectionException:
+                res["runs"].append(dict(kind="sceneRejected", events=[], veneer_clean=True))
+                continue
+            out = run_one(scene, run)
+            if out["kind"] == "AssertionError":
+                # the compiled scenario may have been left unusable by an earlier simulation: report, recompile, go on
+                first = dict(kind=out["kind"], msg=out.get("msg"))
                 try:
-                    scene, _ = scenario.generate(maxIterations=1)
+                    settle()
+                    scenario = compile_job(job, run["tab"])
+                    scene = sample()
+                    out = run_one(scene, run)
+                    out["first_attempt"] = first
                 except RejectionException:
-                    res["runs"].append(dict(kind="sceneRejected", events=[], veneer_clean=True))
-                    continue
-            res["runs"].append(run_one(scene, run))
+                    out = dict(kind="sceneRejected", events=[], veneer_clean=True, first_attempt=first)
+                except Exception as e:
+                    out["recompile_error"] = type(e).__name__ + ": " + str(e)[:200]
+            res["runs"].append(out)
         results.append(res)
     print(json.dumps(dict(results=results)))
 
